@@ -33,6 +33,23 @@ BASIC itself on a scratch disk):
     (after a bit flip: of what was written with whole records missing), and the last file of the
     tape, if a program or memory image and read without an error, must be what was saved or nothing.
 
+Signature families (stable across seeds; run-specific values are in the detail):
+  eof-late:<kind>-len%255==254, next-file-lost-after:..., appended-file-lost-after-reading:...,
+  load-error-<n>:..., program-mismatch:ascii-program-len%255==254
+                                 one root cause: no final short record when payload+NUL fills the last
+                                 255-byte record, the reader runs on into the next record
+  stuck-open:after-miss-that-skipped-files, stuck-open:after-error-57
+                                 a search that passed over a header and then failed leaves the device
+                                 answering File already open
+  ghost-header:after-skipped-<kind>  a data record that starts with A5 is announced as a file
+  skip-io-error:after-bsave-len==0   passing over a zero-length memory image gives Device I/O error
+  bload-drops-final-0x1A, bsave-tandy-last-7-bytes-lost
+  data-mismatch / data-short / read-past-end / program-mismatch / memory-mismatch:<kind>, messages:other,
+  search-error:<stmt>:expected-<e>-got-<g>, write-error:..., read-error:..., torn-wrong-data:...,
+  internal-error, crash:...      everything else (on the unchanged tree only crash:UnboundLocalError@basic/
+                                 converter/protect.py:unprotect fires: LOAD of a protected program whose
+                                 data record was torn off)
+
 Deliberately left out: overwriting in the middle of a tape, names longer than 8 characters or
 with trailing blanks, reading a file with a statement of another type, ^Z inside data files
 (INPUT$ stops there by specification), CR/LF framing of PRINT#/WRITE# (files written with line
@@ -47,7 +64,7 @@ import logging
 from .. import kernel as K
 from .. import simfs
 from ..basicdrv import Driver
-from .common import Run, execute, b, u, shash
+from .common import execute, b, u
 
 NAME = 'cas'
 PROPS = ('C29',)
@@ -78,15 +95,16 @@ TYPES_FOR = {'D': 'D', 'L': 'ABP', 'G': 'A', 'M': 'M'}   # read statement kind -
 
 
 def quick_runs(prop):
-    return 2000
+    return 1500
 
 
 ###############################################################################
 # generator (pure function of rng)
 
-def _pick_len(rng, rec, big, lo=0):
+def _pick_len(rng, rec, big, lo=0, maxk=None):
     """Length biased to 0, 1, k*rec-2..k*rec+2."""
-    maxk = 9 if big else 5
+    if maxk is None:
+        maxk = 9 if big else 5
     r = rng.random()
     if r < 0.10:
         n = rng.choice([0, 1, 2])
@@ -231,11 +249,8 @@ def _gen_prog(rng, fmt, big, small):
 
 
 def _gen_mem(rng, big, small):
-    n = _pick_len(rng, 256, big)
-    if small:
-        n = min(n, 520)
-    if rng.random() < 0.5:
-        n = min(n, 600)
+    # loading a block into text-mode video memory is slow in the engine (every cell is rendered): mostly 1-2 blocks
+    n = _pick_len(rng, 256, big, maxk=2 if (small or rng.random() < 0.8) else None)
     data = _binary(rng, n)
     if n and rng.random() < 0.04:
         data = '\xa5' + data[1:]
@@ -429,7 +444,6 @@ class TFile(object):
         if k == 'data':
             self.typ = 'D'
             self.L = _model_len_data(op)
-            self.first = None
         elif k == 'save':
             self.typ = op['fmt']
             self.listing = _listing(op['lines'])
@@ -483,7 +497,6 @@ class Tape(object):
         self.torn_from = None    # index of the first file that may be damaged
         self.last_read = None    # file read to its end by the previous tape operation in this session
         self.last_miss_skipped = 0
-        self.last_err = None
         self.wound = False       # rewound by a miss (head before the intro)
 
     def search_from(self, start, name, types):
@@ -536,7 +549,6 @@ class Exec(object):
             self.tape.wound = False
             self.tape.last_read = None
             self.tape.last_miss_skipped = 0
-            self.tape.last_err = None
         return self.d
 
     def close(self):
@@ -707,10 +719,8 @@ class Exec(object):
                   touches_torn, self.sessions)
         prev_read = t.last_read
         prev_miss_skipped = t.last_miss_skipped
-        prev_err = t.last_err
         t.last_read = None
         t.last_miss_skipped = 0
-        t.last_err = None
         if kind == 'D':
             stmt = b'OPEN "CAS1:' + name + b'" FOR INPUT AS 1'
         elif kind == 'L':
@@ -767,9 +777,6 @@ class Exec(object):
                 self.V('stuck-open:after-miss-that-skipped-files',
                        '%r gave File already open; the previous tape search passed over %d file(s), ended in Device '
                        'Timeout and left no file open' % (stmt, prev_miss_skipped))
-            elif prev_err is not None:
-                self.V('stuck-open:after-error-%d' % prev_err,
-                       '%r gave File already open after the previous tape operation failed with error %d' % (stmt, prev_err))
             else:
                 self.V('stuck-open:other', '%r gave File already open although no cassette file is open' % (stmt,))
         elif r.err != exp_err:
@@ -781,10 +788,10 @@ class Exec(object):
                            stmt, zero[0].name, got_msgs))
             elif self.lost_appended(stmt, exp_msgs, got_msgs, skipped + ([f] if f is not None else [])):
                 pass
-            elif f is not None and f.typ == 'A' and f.L % 255 == 254 and r.err == 66 and got_msgs == exp_msgs:
-                self.V('load-error-66:' + f.lenclass(),
-                       '%r: Direct statement in file while loading the ASCII program %r of %d bytes (next file: %r)' % (
-                           stmt, f.name, f.L, [g.trunk for g in t.files[j + 1:j + 2]]))
+            elif f is not None and f.typ == 'A' and f.L % 255 == 254 and r.err is not None and got_msgs == exp_msgs:
+                self.V('load-error-%d:%s' % (r.err, f.lenclass()),
+                       '%r: error %d while loading the ASCII program %r of %d bytes (next file: %r): the reader runs on into '
+                       'the following records' % (stmt, r.err, f.name, f.L, [g.trunk for g in t.files[j + 1:j + 2]]))
             elif prev_read is not None and prev_read.lenclass().endswith('len%255==254') and r.err == 24:
                 self.V('next-file-lost-after:' + prev_read.lenclass(),
                        '%r gave Device Timeout; expected %r. The file read just before, %r, has %d bytes' % (
